@@ -551,7 +551,7 @@ pub fn build_raw(lang: &Lang, events: &[Ev], crlf: bool) -> Built {
                     let one_stmt_per_line = matches!(lang.id, "go" | "swift" | "kotlin");
                     let trail = place.trail && ((form == Form::Block && has_inline && !(lead && one_stmt_per_line)) || form == Form::MdHtml);
                     let interp = place.interp && form == Form::Block && crate::langs::interp_wrapper(lang.id).is_some();
-                    segs.push(Seg::Comment(CommentSeg { form, indent: (place.indent % 9) as usize, lead: lead && !interp, trail: trail && !interp, star: place.star && lang.star, doc: place.doc && (lang.star || lang.markdown) && !interp, container: place.container % 5, interp, parts: part_for(form) }));
+                    segs.push(Seg::Comment(CommentSeg { form, indent: (place.indent % 9) as usize, lead: lead && !interp, trail: trail && !interp, star: place.star && lang.star, doc: place.doc && (lang.star || lang.markdown || lang.id == "ruby") && !interp, container: place.container % 5, interp, parts: part_for(form) }));
                 }
                 prev_was_tag = true;
             }
@@ -672,7 +672,8 @@ pub fn build_raw(lang: &Lang, events: &[Ev], crlf: bool) -> Built {
                 let idx = comments.len();
                 let mut had_nl = false;
                 let md_ref = matches!(c.form, Form::MdRef(_));
-                if own_lines {
+                // (`doc` on a Ruby `=begin` comment: its text starts on the marker's own line, `=begin <block …>`)
+                if own_lines && !c.doc {
                     out.push_str(nl);
                 } else if !md_ref {
                     out.push(' ');
